@@ -26,3 +26,26 @@ def run_cli(argv, files=None, extra_env=None, timeout=300, setup=None, keep=Fals
 def pmap(fn, items, workers=14):
     with cf.ThreadPoolExecutor(workers) as ex:
         return list(ex.map(fn, items))
+
+import re as _re
+_MUT = _re.compile(r'^\d*\s*(openat|open|creat|unlink|unlinkat|rename|renameat|renameat2|mkdir|mkdirat|rmdir|truncate|chmod|fchmodat|symlink|symlinkat|link|linkat|utimensat)\((.*)$')
+def strace_mutations(path, root, cwd):
+    """file-system mutation syscalls (H-sys) whose path argument resolves under `root`; reads an `strace -f -o` log"""
+    out = []; n = 0
+    root = os.path.realpath(root)
+    try: lines = open(path, errors="replace").read().splitlines()
+    except OSError: return None, 0
+    for l in lines:
+        m = _MUT.match(l.strip())
+        if not m: continue
+        n += 1
+        name, rest = m.groups()
+        if " = -1 " in l: continue                      # failed calls changed nothing
+        paths = _re.findall(r'"((?:[^"\\]|\\.)*)"', rest)
+        if name in ("openat", "open"):
+            if not _re.search(r"O_WRONLY|O_RDWR|O_CREAT|O_TRUNC|O_APPEND", rest): continue
+            paths = paths[:1]
+        for p in paths:
+            rp = os.path.realpath(p if os.path.isabs(p) else os.path.join(cwd, p))
+            if rp == root or rp.startswith(root + os.sep): out.append({"syscall": name, "path": rp, "line": l.strip()[:200]})
+    return out, n
